@@ -214,3 +214,55 @@ pub fn drg_model_xml(m: &serde_json::Value) -> String {
   s.push_str("</definitions>");
   s
 }
+
+/// Item definitions for a type tree of ItemDef.tla; returns (xml of all definitions, name of the top one).
+pub fn item_definitions_xml(t: &serde_json::Value) -> (String, String) {
+  struct Gen {
+    out: Vec<String>,
+    n: usize,
+  }
+  impl Gen {
+    fn fresh(&mut self) -> String {
+      self.n += 1;
+      format!("t{}", self.n)
+    }
+    fn av(&self, av: &str) -> String {
+      match av {
+        "num12" => "<allowedValues><text>1, 2</text></allowedValues>".to_string(),
+        "strab" => "<allowedValues><text>\"a\", \"b\"</text></allowedValues>".to_string(),
+        _ => String::new(),
+      }
+    }
+    /// attributes + children describing type `t` inside an itemDefinition / itemComponent element
+    fn content(&mut self, t: &serde_json::Value) -> (String, String) {
+      match t["d"].as_str().unwrap() {
+        "simple" => (String::new(), format!("<typeRef>{}</typeRef>{}", t["ty"].as_str().unwrap(), self.av(t["av"].as_str().unwrap()))),
+        "ref" => {
+          let name = self.define(&t["to"]);
+          (String::new(), format!("<typeRef>{}</typeRef>", name))
+        }
+        "comp" => {
+          let mut s = String::new();
+          for c in t["cs"].as_array().unwrap() {
+            let (attrs, body) = self.content(&c["ty"]);
+            s.push_str(&format!("<itemComponent name=\"{}\"{}>{}</itemComponent>", c["name"].as_str().unwrap(), attrs, body));
+          }
+          (String::new(), s)
+        }
+        _ => {
+          let (_, body) = self.content(&t["of"]);
+          (" isCollection=\"true\"".to_string(), body)
+        }
+      }
+    }
+    fn define(&mut self, t: &serde_json::Value) -> String {
+      let name = self.fresh();
+      let (attrs, body) = self.content(t);
+      self.out.push(format!("<itemDefinition name=\"{}\"{}>{}</itemDefinition>", name, attrs, body));
+      name
+    }
+  }
+  let mut g = Gen { out: vec![], n: 0 };
+  let top = g.define(t);
+  (g.out.join(""), top)
+}
